@@ -114,6 +114,7 @@ func c10(r *core.Run) {
 	r.Rule("C10/R1", "owner gate: every effect of DeleteFile/ChangeOwner/Add,Remove,ResetViewers/Add,Remove,ResetEditors is, on all committing paths, behind ownerPredicate(loaded record, signer)=true")
 	r.Rule("C10/R2", "editor gate: PostFile's write is behind editAccessPredicate(parent record, signer)=true; parent loaded by key ⊵ {msg.HashParent, msg.Account}; new Owner ⊵ msg.Account and ⋫ msg.Creator")
 	r.Rule("C10/R3", "only the named entry and field: the stored record is the loaded one with only the handler's field assigned; deletes use the key the record was loaded by")
+	r.Rule("C10/R5", "the named change happens: every successful return of reset / change-owner / delete has performed the write or delete; a reset stores a fresh map with the single key H(prefix, record.TrackingNumber, signer)")
 	r.Rule("C10/R4", "root provisioning writes exactly one Files record whose Owner ⊵ signer only and whose Address is constant")
 	hs, err := p.Handlers()
 	if err != nil {
@@ -161,6 +162,84 @@ func c10(r *core.Run) {
 		c10Census(r, h, field)
 	}
 	r.Floor("C10/R1", nOwner, 8, "owner-only handlers")
+	// ---- R5 the named change happens on every successful return (reset / change owner / delete)
+	for _, key := range []string{"filetree.MsgResetViewers", "filetree.MsgResetEditors", "filetree.MsgChangeOwner", "filetree.MsgDeleteFile"} {
+		h := core.HandlerByKey(hs, key)
+		if h == nil {
+			continue
+		}
+		for _, e := range p.Effects(h.Fn) {
+			if len(e.Store) == 0 {
+				continue
+			}
+			ret := p.BypassExists(h.Fn, h.Fn.Blocks[0].Instrs[0], e.Instr, false)
+			r.Check(ret == nil, "C10/R5", key+":success-implies-change:"+effKinds(e), p.InstrPos(e.Instr), "every successful return has performed "+effKinds(e), "the handler can report success without having performed "+effKinds(e)+" (e.g. an early return): the entry keeps its old access list / owner although the message succeeded")
+		}
+		if !strings.Contains(key, "Reset") {
+			continue
+		}
+		// the stored access list is a fresh map with exactly one entry keyed by H(prefix, tracking number, signer)
+		field := ownerOnly[key]
+		for _, e := range p.Effects(h.Fn) {
+			call, ok := e.Instr.(ssa.CallInstruction)
+			if !ok || !effHas(e, "Set", ftFiles) {
+				continue
+			}
+			rec := dataArgs(call)[0]
+			al := recordAlloc(rec)
+			if al == nil {
+				continue
+			}
+			okReset, detail := false, "stored value is not json.Marshal of a fresh map"
+			for _, st := range fieldStores(al, field) {
+				// value = string(json.Marshal(M)#0)
+				var m ssa.Value
+				v := st.Val
+				for i := 0; i < 4 && v != nil; i++ {
+					switch x := v.(type) {
+					case *ssa.Convert:
+						v = x.X
+					case *ssa.Extract:
+						v = x.Tuple
+					case *ssa.Call:
+						if strings.HasSuffix(core.CalleeFullName(x), "encoding/json.Marshal") {
+							if mi, ok := x.Call.Args[0].(*ssa.MakeInterface); ok {
+								m = mi.X
+							}
+						}
+						v = nil
+					default:
+						v = nil
+					}
+				}
+				mm, isMake := m.(*ssa.MakeMap)
+				if !isMake {
+					continue
+				}
+				var ups []*ssa.MapUpdate
+				for _, ref := range *mm.Referrers() {
+					if mu, ok := ref.(*ssa.MapUpdate); ok {
+						ups = append(ups, mu)
+					}
+					if c, ok := ref.(ssa.CallInstruction); ok && !strings.HasSuffix(core.CalleeFullName(c), "json.Marshal") {
+						detail = "the fresh map is passed to " + short(core.CalleeFullName(c))
+						ups = append(ups, nil, nil)
+					}
+				}
+				if len(ups) != 1 || ups[0] == nil {
+					detail = fmt.Sprintf("the stored map receives %d entries, expected exactly the owner's", len(ups))
+					continue
+				}
+				kp := p.ProvAt(ups[0].Key, "", ups[0])
+				if p.OnlyMsgField(core.Prov(filterKinds(kp, "param")), h, "Creator") && kp.HasStore(ftFiles, ".TrackingNumber") && kp.HasExt("sha256") {
+					okReset, detail = true, "fresh map with the single key H(prefix, record.TrackingNumber, signer)"
+				} else {
+					detail = "the single key is not H(prefix, record.TrackingNumber, signer): " + kp.String()
+				}
+			}
+			r.Check(okReset, "C10/R5", key+":reset-leaves-owner-entry-only", p.InstrPos(call), detail, "a reset does not leave exactly the owner's own access entry: "+detail)
+		}
+	}
 	for k := range ownerOnly {
 		if core.HandlerByKey(hs, k) == nil {
 			r.Undecided("C10/R1", k+":anchor-missing", "", "policy row for a message type that no longer exists")
@@ -347,4 +426,14 @@ func c10Census(r *core.Run, h *core.Handler, allowed string) {
 			r.Check(match, "C10/R3", h.Key()+":delete-key", p.InstrPos(call), "delete uses the key the record was loaded by", "delete key differs from the key of the loaded (authorized) record")
 		}
 	}
+}
+
+func filterKinds(pr core.Prov, kind string) map[string]core.Atom {
+	out := map[string]core.Atom{}
+	for k, a := range pr {
+		if a.Kind == kind {
+			out[k] = a
+		}
+	}
+	return out
 }
